@@ -23,6 +23,9 @@
              so a section that sets a condition and ends without wake-up is an illegal client
              program, and the generator never emits one.)
      R       rlock; read section; runlock
+     R@k     rlock; wait (client level) until k waiters have announced themselves; read section; runlock -- a reader
+             that is still inside while a READER-mode waiter starts to wait (legal only if every waiter of the
+             program is reader-mode: a writer could not announce itself while this reader holds the mutex)
      V       cv waiter on the same mutex: lock; while (!cvflag) nsync_cv_wait; unlock
      S       lock; cvflag=1; nsync_cv_signal; unlock   (the cv waiter is transferred to the mutex queue)
      F       lock; cvflag=1; unlock                    (sets the cv waiters' flag without waking)
@@ -79,7 +82,7 @@ static int ref_eq (const void *x, const void *y) { return ((const struct cref *)
 
 static int is_waiter (const char *o) { return o[0] == 'M' && (o[1] == 'w' || o[1] == 'r') && o[2] >= '1' && o[2] <= '6'; }
 static int mw_setup (const char *program) {
-	int t, k, n = h_parse (program), fresh = 0, notifier = 0;
+	int t, k, n = h_parse (program), fresh = 0, notifier = 0, held_until = 0;
 	if (n < 1) return -1;
 	for (t = 0; t < n; t++) for (k = 0; k < h_nops[t]; k++) {
 		const char *o = h_op[t][k];
@@ -92,7 +95,25 @@ static int mw_setup (const char *program) {
 		} else if (!strcmp (o, "Sr") || !strcmp (o, "Br") || !strcmp (o, "a0") || !strcmp (o, "b0")) {
 		} else if (strlen (o) == 1 && strchr ("ABZzRVSNFG", o[0])) { if (o[0] == 'N') notifier = 1; }
 		else if (o[0] == '@' && o[1] >= '1' && o[1] <= '9' && o[2] == 0) ;
+		else if (o[0] == 'R' && o[1] == '@' && o[2] >= '1' && o[2] <= '9' && o[3] == 0) { if (o[2] - '0' > held_until) held_until = o[2] - '0'; }
 		else return -1;
+	}
+	if (held_until) {   /* R@k: only reader-mode waiters, and at least k of them */
+		int readers = 0;
+		for (t = 0; t < n; t++) for (k = 0; k < h_nops[t]; k++) {
+			const char *o = h_op[t][k];
+			if (is_waiter (o)) { if (o[1] != 'r') return -1; readers++; }
+			else if (!strcmp (o, "V")) return -1;
+		}
+		if (readers < held_until) return -1;
+		/* a writer that queues while the R@k reader is still waiting for a reader-mode waiter to arrive would
+		   keep that waiter out for ever (writers have priority over new readers): every thread that takes the
+		   mutex in write mode must itself wait for the k-th announcement first */
+		for (t = 0; t < n; t++) {
+			int writes = 0;
+			for (k = 0; k < h_nops[t]; k++) { const char *o = h_op[t][k]; if (!is_waiter (o) && o[0] != 'R' && o[0] != '@' && o[0] != 'N' && o[0] != 'G') writes = 1; }
+			if (writes && !(h_op[t][0][0] == '@' && h_op[t][0][1] - '0' >= held_until)) return -1;
+		}
 	}
 	if (notifier && !fresh) return -1;
 	return n;
@@ -205,7 +226,7 @@ static void mw_thread (int me) {
 			break; }
 		case 'Z': wlock (); write_section (); wunlock (1); break;
 		case 'z': wlock (); write_section (); wunlock (0); break;
-		case 'R': nsync_mu_rlock (&mu); h_enter (&mu, 0, "nsync_mu_rlock"); read_section (); h_leave (&mu, 0); nsync_mu_runlock (&mu); break;
+		case 'R': nsync_mu_rlock (&mu); h_enter (&mu, 0, "nsync_mu_rlock"); if (o[1] == '@') mc_await (&announced_ge[o[2] - '0']); read_section (); h_leave (&mu, 0); nsync_mu_runlock (&mu); break;
 		case 'V':
 			wlock ();
 			while (!cvflag) {
